@@ -277,23 +277,33 @@ func (v *Verifier) evalIdent(fr *Frame, st *State, id *ast.Ident) Val {
 	obj := v.lookupObj(fr, id)
 	if obj == nil {
 		// contract expression: resolve by name
-		if strings.HasPrefix(name, "result") && fr.resultV != nil {
-			if name == "result" {
-				if len(fr.resultV) != 1 {
-					panic(unsupportedf(id.Pos(), "'result' used with %d results; use resultN", len(fr.resultV)))
-				}
-				return fr.resultV[0]
-			}
-			if n, err := strconv.Atoi(name[6:]); err == nil && n < len(fr.resultV) {
-				return fr.resultV[n]
-			}
-		}
 		if c, ok := fr.byName[name]; ok {
 			if val, ok := st.vals[c]; ok {
 				_ = val
 				return v.eng.load(st, VarLoc{c})
 			}
 			panic(unsupportedf(id.Pos(), "variable %s not live in this state", name))
+		}
+		// a parameter / local called "result" wins over the contract keyword
+		if strings.HasPrefix(name, "result") && fr.resultV != nil {
+			var local types.Object
+			if fr.scopeAt.IsValid() {
+				local = v.lookupByName(fr, name)
+				if _, isVar := local.(*types.Var); !isVar {
+					local = nil
+				}
+			}
+			if local == nil {
+				if name == "result" {
+					if len(fr.resultV) != 1 {
+						panic(unsupportedf(id.Pos(), "'result' used with %d results; use resultN", len(fr.resultV)))
+					}
+					return fr.resultV[0]
+				}
+				if n, err := strconv.Atoi(name[6:]); err == nil && n < len(fr.resultV) {
+					return fr.resultV[n]
+				}
+			}
 		}
 		obj = v.lookupByName(fr, name)
 		if obj == nil {
@@ -898,6 +908,17 @@ func (v *Verifier) binop(fr *Frame, st *State, op token.Token, l, r Val, pos tok
 			r = v.coerce(r, typeOfVal(l))
 		}
 	}
+	// string concatenation and ordering: opaque
+	if lo, ok := l.(OpaqueVal); ok {
+		if _, ok2 := r.(OpaqueVal); ok2 {
+			switch op {
+			case token.ADD:
+				return OpaqueVal{Sh: lo.Sh, ID: c.Fresh("strcat", IntSort), Nil: c.False()}
+			case token.LSS, token.LEQ, token.GTR, token.GEQ:
+				return Scalar{c.Fresh("strcmp", BoolSort), types.Typ[types.Bool]}
+			}
+		}
+	}
 	// non-scalar equality
 	if op == token.EQL || op == token.NEQ {
 		if _, ok := l.(Scalar); !ok {
@@ -1138,6 +1159,9 @@ func (v *Verifier) convert(fr *Frame, st *State, val Val, to types.Type, pos tok
 	switch x := val.(type) {
 	case Scalar:
 		if tsh.Kind != ShScalar {
+			if tsh.Kind == ShOpaque && isIfaceType(to) {
+				return v.boxIface(st, x, x.Typ, tsh)
+			}
 			if tsh.Kind == ShOpaque {
 				// e.g. string(rune) / float conversions
 				return OpaqueVal{Sh: tsh, ID: c.Fresh("conv", IntSort), Nil: c.False()}
@@ -1193,7 +1217,9 @@ func (v *Verifier) convert(fr *Frame, st *State, val Val, to types.Type, pos tok
 			if x.Loc != nil {
 				return OpaqueVal{Sh: tsh, ID: c.Fresh("iface", IntSort), Nil: x.Nil}
 			}
-			return OpaqueVal{Sh: tsh, ID: x.Ref, Nil: x.Nil}
+			r := v.boxIface(st, x, x.Sh.Typ, tsh).(OpaqueVal)
+			r.Nil = x.Nil
+			return r
 		}
 	case OpaqueVal:
 		if tsh.Kind == ShOpaque {
@@ -1211,6 +1237,11 @@ func (v *Verifier) convert(fr *Frame, st *State, val Val, to types.Type, pos tok
 	}
 	if tsh.Kind == ShOpaque {
 		// value to interface
+		if isIfaceType(to) {
+			if ft := typeOfVal(val); ft != nil {
+				return v.boxIface(st, val, ft, tsh)
+			}
+		}
 		return OpaqueVal{Sh: tsh, ID: c.Fresh("iface", IntSort), Nil: c.False()}
 	}
 	panic(unsupportedf(pos, "conversion of %T to %s", val, to))
@@ -1371,12 +1402,23 @@ func (v *Verifier) bvToInt(t *Term, signed bool) *Term {
 // (a sound over-approximation); the comma-ok form adds an unconstrained bool.
 func (v *Verifier) evalTypeAssert(fr *Frame, st *State, x *ast.TypeAssertExpr, commaOk bool) Val {
 	c := v.eng.C
-	v.eval(fr, st, x.X)
+	src := v.eval(fr, st, x.X)
 	t := v.typeOf(fr, x.Type)
 	if t == nil {
 		panic(unsupportedf(x.Pos(), "type switch guard"))
 	}
 	sh := v.eng.shapeOf(t)
+	if iv, ok := src.(OpaqueVal); ok && !isIfaceType(t) && sh.Kind != ShOpaque {
+		isT := c.And(c.Not(iv.Nil), c.Eq(v.dynTag(iv.ID), v.typeCode(t)))
+		pl := v.dynPayload(iv.ID, t)
+		if commaOk {
+			return TupleVal{[]Val{pl, Scalar{isT, types.Typ[types.Bool]}}}
+		}
+		if !fr.inSpec {
+			v.oblige(fr, st, "typeassert", x.Pos(), isT, "type assertion may fail")
+		}
+		return pl
+	}
 	var wf []*Term
 	val := v.eng.freshVal(sh, "assert", &wf)
 	for _, w := range wf {
